@@ -992,7 +992,7 @@ def brace_variant_in_scope(spec, term):
     import re as _re
     if not term:
         return False
-    bad = _re.match(r"[A-Za-z][A-Za-z0-9_]*(?:_\{-?[A-Za-z0-9]+\})?(?:\^\{-?[A-Za-z0-9]+\})?'*", term)
+    bad = _re.match(r"[A-Za-z][A-Za-z0-9]*(?:_\{-?[A-Za-z0-9]+\}(?:\^\{-?[A-Za-z0-9]+\})?|[A-Za-z0-9_]*)'*", term)
     if not bad:
         return False
     bad = bad.group(0)
